@@ -83,6 +83,7 @@ import (
 	"github.com/yandex/pandora/core/aggregator/netsample"
 	"github.com/yandex/pandora/core/config"
 	coreimport "github.com/yandex/pandora/core/import"
+	"github.com/yandex/pandora/core/warmup"
 	"go.uber.org/zap"
 	"go.uber.org/zap/zapcore"
 )
@@ -148,6 +149,13 @@ type caseIn struct {
 	lay           int
 	feat          int
 	nodns         bool
+
+	// round 3
+	shared int  // shared-client: 0 = off, n = enabled with client-number n
+	redir  bool // the gun option redirect: true
+	uris   bool // uri format: the ammo stands in the provider's `uris` option, not in a file
+	lim    int  // the provider's `limit` option (0 = none)
+	late   bool // the target starts listening only AFTER the gun factory ran (its reachability lookup fails)
 }
 
 func optOr(s string) string {
@@ -157,11 +165,67 @@ func optOr(s string) string {
 	return s
 }
 
-func hx(s string) string { return hex.EncodeToString([]byte(s)) }
+// hx: hex with run-length segments, so that megabyte bodies and kilobyte URIs stay short in the line protocol: segments
+// joined by `_`, a segment is plain hex or `<n>*<hh>` for a run of n >= 16 equal bytes (every maximal run of that length
+// is written so, everything else is plain: the rendering is canonical and the Lean driver produces the same one).
+func hx(s string) string {
+	var out strings.Builder
+	var plain []byte
+	flush := func() {
+		if len(plain) > 0 {
+			if out.Len() > 0 {
+				out.WriteByte('_')
+			}
+			out.WriteString(hex.EncodeToString(plain))
+			plain = plain[:0]
+		}
+	}
+	for i := 0; i < len(s); {
+		j := i
+		for j < len(s) && s[j] == s[i] {
+			j++
+		}
+		if j-i >= 16 {
+			flush()
+			if out.Len() > 0 {
+				out.WriteByte('_')
+			}
+			fmt.Fprintf(&out, "%d*%02x", j-i, s[i])
+		} else {
+			plain = append(plain, s[i:j]...)
+		}
+		i = j
+	}
+	flush()
+	return out.String()
+}
 
 func unhx(s string) (string, error) {
-	b, err := hex.DecodeString(s)
-	return string(b), err
+	if !strings.ContainsAny(s, "_*") {
+		b, err := hex.DecodeString(s)
+		return string(b), err
+	}
+	var out []byte
+	for _, seg := range strings.Split(s, "_") {
+		if n, h, ok := strings.Cut(seg, "*"); ok {
+			k, err := strconv.Atoi(n)
+			if err != nil || k < 0 || k > 8<<20 {
+				return "", fmt.Errorf("run length")
+			}
+			b, err := hex.DecodeString(h)
+			if err != nil {
+				return "", err
+			}
+			out = append(out, bytes.Repeat(b, k)...)
+			continue
+		}
+		b, err := hex.DecodeString(seg)
+		if err != nil {
+			return "", err
+		}
+		out = append(out, b...)
+	}
+	return string(out), nil
 }
 
 func encodeEntry(e entry) string {
@@ -220,6 +284,21 @@ func encodeCase(c caseIn) string {
 	if c.nodns {
 		timing += " dns=0"
 	}
+	if c.shared != 0 {
+		timing += fmt.Sprintf(" shared=%d", c.shared)
+	}
+	if c.redir {
+		timing += " redir=1"
+	}
+	if c.uris {
+		timing += " src=uris"
+	}
+	if c.lim != 0 {
+		timing += fmt.Sprintf(" lim=%d", c.lim)
+	}
+	if c.late {
+		timing += " late=1"
+	}
 	return fmt.Sprintf("kind=run gun=%s fmt=%s ssl=%s srv=%s ka=%s inst=%d tgt=%s passes=%d pre=%s rsp=%s mode=%s sched=%s%s conf=%s ents=%s",
 		gun, c.format, b(c.ssl), c.srv, b(c.ka), c.inst, c.tgt, c.passes, b(c.preload), rsp, mode, strings.Join(sc, "."), timing,
 		strings.Join(cs, ";"), strings.Join(es, "|"))
@@ -258,7 +337,8 @@ func parseCase(input string) (c caseIn, err error) {
 		key string
 		dst *int
 		max int
-	}{{"gap", &c.gap, 5000}, {"delay", &c.delay, 5000}, {"code", &c.code, 599}, {"lay", &c.lay, 3}, {"feat", &c.feat, 31}} {
+	}{{"gap", &c.gap, 5000}, {"delay", &c.delay, 5000}, {"code", &c.code, 599}, {"lay", &c.lay, 3}, {"feat", &c.feat, 31},
+		{"shared", &c.shared, 8}, {"lim", &c.lim, 64}} {
 		if v, ok := m[f.key]; ok {
 			n, e := strconv.Atoi(v)
 			if e != nil || n < 0 || n > f.max {
@@ -271,6 +351,9 @@ func parseCase(input string) (c caseIn, err error) {
 		return c, fmt.Errorf("code")
 	}
 	c.nodns = m["dns"] == "0"
+	c.redir = m["redir"] == "1"
+	c.uris = m["src"] == "uris"
+	c.late = m["late"] == "1"
 	for _, o := range []string{c.idle, c.rht, c.mic, c.mich} {
 		if o != "-" {
 			if n, e := strconv.Atoi(o); e != nil || n < -100000 || n > 1000000 {
@@ -371,6 +454,9 @@ func parseCase(input string) (c caseIn, err error) {
 		if g >= c.inst {
 			return c, fmt.Errorf("sched")
 		}
+	}
+	if c.uris && c.format != "uri" {
+		return c, fmt.Errorf("src") // the provider accepts `uris` for the uri decoder only
 	}
 	return c, nil
 }
@@ -511,6 +597,11 @@ type target struct {
 	seq     atomic.Int64
 	decoy   *httptest.Server
 	decoyN  atomic.Int64
+	// late start (round 3): the address is fixed, nobody listens there until start() is called
+	addr    string
+	started bool
+	useTLS  bool
+	isConn  bool
 }
 
 type connKey struct{}
@@ -661,23 +752,58 @@ func newTarget(c caseIn) (*target, error) {
 		return nil, err
 	}
 	srv := &httptest.Server{Listener: l, Config: &http.Server{Handler: h}}
-	if c.gun == "connect" {
-		cl := &connectListener{Listener: srv.Listener, ch: make(chan net.Conn), done: make(chan struct{}), t: t}
-		go cl.loop()
-		srv.Listener = cl
-	}
 	srv.EnableHTTP2 = c.gun == "http2"
 	srv.Config.ErrorLog = log.New(io.Discard, "", 0)
 	srv.Config.ConnContext = func(ctx context.Context, c net.Conn) context.Context {
 		return context.WithValue(ctx, connKey{}, t.seq.Add(1))
 	}
-	if useTLS {
-		srv.StartTLS()
-	} else {
-		srv.Start()
-	}
 	t.srv = srv
-	return t, nil
+	t.addr = l.Addr().String()
+	t.useTLS, t.isConn = useTLS, c.gun == "connect"
+	if c.late {
+		// the port is chosen, but nothing listens there yet: the gun factory's reachability lookup will be refused
+		_ = l.Close()
+		srv.Listener = nil
+		return t, nil
+	}
+	return t, t.start()
+}
+
+// start lets the target listen (again, at the address chosen before, when the case starts it late) and serve.
+func (t *target) start() error {
+	if t.started {
+		return nil
+	}
+	if t.srv.Listener == nil {
+		network := "tcp4"
+		if strings.HasPrefix(t.addr, "[") {
+			network = "tcp6"
+		}
+		var l net.Listener
+		var err error
+		for i := 0; i < 20; i++ {
+			if l, err = net.Listen(network, t.addr); err == nil {
+				break
+			}
+			time.Sleep(50 * time.Millisecond)
+		}
+		if err != nil {
+			return err
+		}
+		t.srv.Listener = l
+	}
+	if t.isConn {
+		cl := &connectListener{Listener: t.srv.Listener, ch: make(chan net.Conn), done: make(chan struct{}), t: t}
+		go cl.loop()
+		t.srv.Listener = cl
+	}
+	if t.useTLS {
+		t.srv.StartTLS()
+	} else {
+		t.srv.Start()
+	}
+	t.started = true
+	return nil
 }
 
 const controlPath = "/__c09_control"
@@ -690,7 +816,7 @@ var persistedFailures atomic.Int64
 // the case failed below HTTP although the scheme fits and the control fails as well, the trouble is the machine's (a loaded
 // machine drops connections in bursts); when the control succeeds the failure is the code's and is reported.
 func (t *target) control(c caseIn) error {
-	addr := t.srv.Listener.Addr().String()
+	addr := t.addr
 	d := net.Dialer{Timeout: 5 * time.Second}
 	conn, err := d.Dial("tcp", addr)
 	if err != nil {
@@ -734,7 +860,9 @@ func (t *target) control(c caseIn) error {
 }
 
 func (t *target) Close() {
-	t.srv.Close()
+	if t.started {
+		t.srv.Close()
+	}
 	if t.decoy != nil {
 		t.decoy.Close()
 	}
@@ -867,7 +995,7 @@ func runWith(input string, agg *errAggregator) string {
 		return "ENV listen"
 	}
 	defer tg.Close()
-	_, port, _ := net.SplitHostPort(tg.srv.Listener.Addr().String())
+	_, port, _ := net.SplitHostPort(tg.addr)
 	targetAddr := net.JoinHostPort(c.tgt, port)
 
 	path := fmt.Sprintf("/c09/ammo-%d", fileSeq.Add(1))
@@ -884,6 +1012,18 @@ func runWith(input string, agg *errAggregator) string {
 	ammoCfg := map[string]any{"type": ammoType, "file": path, "headers": headers, "passes": c.passes}
 	if c.preload {
 		ammoCfg["preload"] = true
+	}
+	if c.uris {
+		// the same lines, given in the config instead of a file (provider.go uriReadSeekCloser)
+		delete(ammoCfg, "file")
+		var lines []any
+		for _, l := range strings.Split(strings.TrimSuffix(string(file), "\n"), "\n") {
+			lines = append(lines, l)
+		}
+		ammoCfg["uris"] = lines
+	}
+	if c.lim > 0 {
+		ammoCfg["limit"] = c.lim
 	}
 	// generous timeouts (not part of the property): a TLS handshake may take long on a loaded machine
 	gunCfg := map[string]any{"type": c.gun, "target": targetAddr, "ssl": c.ssl, "tls-handshake-timeout": "20s",
@@ -902,6 +1042,12 @@ func runWith(input string, agg *errAggregator) string {
 	}
 	if c.feat&12 != 0 {
 		gunCfg["httptrace"] = map[string]any{"trace": c.feat&4 != 0, "dump": c.feat&8 != 0}
+	}
+	if c.shared > 0 {
+		gunCfg["shared-client"] = map[string]any{"enabled": true, "client-number": c.shared}
+	}
+	if c.redir {
+		gunCfg["redirect"] = true
 	}
 	// round 2: the transport's options, by their documented names
 	ms := func(v string) string { return v + "ms" }
@@ -934,6 +1080,9 @@ func runWith(input string, agg *errAggregator) string {
 		}
 		return "construct-err " + drv.Trunc(err.Error(), 200)
 	}
+	if err := tg.start(); err != nil { // late=1: the target comes up after the gun factory ran
+		return "ENV listen-late"
+	}
 
 	ctx, cancel := context.WithCancel(context.Background())
 	defer cancel()
@@ -945,13 +1094,31 @@ func runWith(input string, agg *errAggregator) string {
 	runErr := make(chan error, 1)
 	go func() { runErr <- pool.Provider.Run(ctx, core.ProviderDeps{Log: nop, PoolID: "c09"}) }()
 
+	// as core/engine does (instancePool.warmUpGun): one more gun is created for the warm-up only, its result is handed to
+	// every instance's Bind as GunDeps.Shared (the shared-client pool lives there), then it is closed
+	var sharedDeps any
+	{
+		wg, err := pool.NewGun()
+		if err != nil {
+			return "construct-err gun"
+		}
+		if w, ok := wg.(warmup.WarmedUp); ok {
+			sharedDeps, err = w.WarmUp(&warmup.Options{Log: nop, Ctx: ctx})
+			if err != nil {
+				return "construct-err warmup"
+			}
+		}
+		if cl, ok := wg.(io.Closer); ok {
+			_ = cl.Close()
+		}
+	}
 	guns := make([]core.Gun, c.inst)
 	for i := range guns {
 		g, err := pool.NewGun()
 		if err != nil {
 			return "construct-err gun"
 		}
-		if err := g.Bind(agg, core.GunDeps{Ctx: ctx, Log: gunLog, PoolID: "c09", InstanceID: i}); err != nil {
+		if err := g.Bind(agg, core.GunDeps{Ctx: ctx, Log: gunLog, PoolID: "c09", InstanceID: i, Shared: sharedDeps}); err != nil {
 			return "construct-err bind"
 		}
 		guns[i] = g
@@ -1117,7 +1284,7 @@ func runWith(input string, agg *errAggregator) string {
 		if r.tls {
 			t = "1"
 		}
-		rs[i] = strings.Join([]string{hx(r.method), hx(r.uri), hx(host), t, strings.Join(hs, ";"), hex.EncodeToString(r.body), strconv.Itoa(r.major)}, ",")
+		rs[i] = strings.Join([]string{hx(r.method), hx(r.uri), hx(host), t, strings.Join(hs, ";"), hx(string(r.body)), strconv.Itoa(r.major)}, ",")
 	}
 	if c.mode == "par" {
 		sort.Strings(rs)
@@ -1225,7 +1392,15 @@ func genURI(r *rand.Rand, allowAbs bool) string {
 	return p
 }
 
+// bigBody: more than 1 MiB (the decoders read bodies in chunks of 1 MiB: readSized), different bytes either side of the boundary
+func bigBody(r *rand.Rand) string {
+	return strings.Repeat("A", 600000+r.Intn(400000)) + "-mid-" + strings.Repeat("B", 448576+r.Intn(300000)) + "end"
+}
+
 func genBody(r *rand.Rand, text bool) string {
+	if r.Intn(150) == 0 {
+		return bigBody(r)
+	}
 	switch r.Intn(7) {
 	case 0:
 		return ""
@@ -1246,7 +1421,11 @@ func genBody(r *rand.Rand, text bool) string {
 		if text {
 			return strings.Repeat("x", 1+r.Intn(3000))
 		}
-		b := make([]byte, 1+r.Intn(70000))
+		n := 1 + r.Intn(6000)
+		if r.Intn(4) == 0 {
+			n = 1 + r.Intn(70000) // beyond the 64 KiB of a bufio.Scanner token
+		}
+		b := make([]byte, n)
 		for i := range b {
 			b[i] = byte(i * 7)
 		}
@@ -1360,7 +1539,29 @@ func genCase(r *rand.Rand, malformed bool) caseIn {
 			c.idle, c.hs = "30000", "20000"
 		}
 	}
+	// round 3: shared clients, followed redirects, inline `uris`, ammo limit, a target that comes up late, a third pass
+	if c.mode == "seq" && r.Intn(10) == 0 {
+		c.shared = 1 + r.Intn(3)
+	}
+	if r.Intn(12) == 0 && (c.gun == "http" || c.rsp != "redir") {
+		c.redir = true // http2: the answer of the plain decoy is no HTTP/2 answer (the gun panics); connect: the tunnel end is asked for the decoy
+	}
+	if c.format == "uri" && r.Intn(5) == 0 {
+		c.uris = true
+	}
+	if r.Intn(12) == 0 {
+		c.lim = 1 + r.Intn(6)
+	}
+	if r.Intn(10) == 0 {
+		c.late = true
+	}
+	if r.Intn(12) == 0 {
+		c.passes = 3
+	}
 	nEnt := 1 + r.Intn(4)
+	if r.Intn(40) == 0 {
+		nEnt = 5 + r.Intn(8)
+	}
 	if c.format == "jsonarr" && nEnt < 2 {
 		nEnt = 2 // a one-element array with passes is C08's finding, not ours
 	}
@@ -1415,6 +1616,10 @@ func genCase(r *rand.Rand, malformed bool) caseIn {
 			e.minor = 0
 		}
 		e.uri = genURI(r, !isJSON)
+		if r.Intn(30) == 0 && strings.HasPrefix(e.uri, "/") && !strings.HasPrefix(e.uri, "//") {
+			// longer than the 4096-byte buffers of bufio.Scanner / bufio.Reader (uri lines stay below the scanner's 64 KiB limit)
+			e.uri = "/" + strings.Repeat("u", 4000+r.Intn(8000)) + e.uri
+		}
 		if isJSON && r.Intn(2) == 0 {
 			e.host = hostWords[r.Intn(len(hostWords))]
 		}
@@ -1422,10 +1627,16 @@ func genCase(r *rand.Rand, malformed bool) caseIn {
 			e.body = genBody(r, isJSON)
 		}
 		nH := r.Intn(4)
+		many := r.Intn(40) == 0
+		if many {
+			nH = 20 + r.Intn(30)
+		}
 		seen := map[string]bool{}
 		for j := 0; j < nH; j++ {
 			var name string
 			switch {
+			case many && j >= 3:
+				name = "X-Many-" + strconv.Itoa(j)
 			case r.Intn(5) == 0:
 				name = caseVariant(r, "Host")
 			case c.gun != "http2" && r.Intn(14) == 0:
@@ -1444,6 +1655,9 @@ func genCase(r *rand.Rand, malformed bool) caseIn {
 			}
 			seen[ck] = true
 			val := genValue(r, "file")
+			if r.Intn(50) == 0 {
+				val = "long-" + strings.Repeat("v", 4090+r.Intn(9000)) + "-end"
+			}
 			if ck == "Host" {
 				val = "file-" + hostWords[r.Intn(len(hostWords))]
 				if r.Intn(10) == 0 {
@@ -1736,6 +1950,149 @@ func timedCases(r *rand.Rand, n int) []string {
 	return out
 }
 
+// sizeCases (round 3): the SIZE dimension — bodies beyond the decoders' 1 MiB read chunk, URIs and header values beyond the 4096-byte
+// buffers of bufio.Scanner / bufio.Reader, dozens of header lines, a dozen entries, three passes; n cases, templates cycled.
+func sizeCases(r *rand.Rand, n int) []string {
+	var out []string
+	for i := 0; i < n; i++ {
+		c := caseIn{ka: true, inst: 1 + r.Intn(2), tgt: "127.0.0.1", passes: 1 + r.Intn(2), mode: "seq", rsp: "2", gun: "http"}
+		c.ssl = r.Intn(4) == 0
+		c.srv = map[bool]string{true: "tls", false: "plain"}[c.ssl]
+		c.preload = r.Intn(3) == 0
+		if r.Intn(3) == 0 {
+			c.lay = 1 + r.Intn(3)
+		}
+		if r.Intn(4) == 0 {
+			c.gun = "connect"
+		}
+		mk := func(format, uri, body string, hdrs []hdrLine) entry {
+			m := map[string]string{"uri": "GET", "uripost": "POST"}[format]
+			if m == "" {
+				m = []string{"POST", "PUT"}[r.Intn(2)]
+			}
+			if format == "uri" {
+				body = ""
+			}
+			return entry{method: m, uri: uri, body: body, hdrs: hdrs, minor: r.Intn(2)}
+		}
+		small := func(j int) entry { return mk(c.format, "/small/"+strconv.Itoa(j), "b"+strconv.Itoa(j), nil) }
+		longV := "tok-" + strings.Repeat("w", 4090+r.Intn(20000)) + "-end"
+		longU := "/" + strings.Repeat("p", 4000+r.Intn(5000)) + "/x?q=" + strings.Repeat("q", 1+r.Intn(3000))
+		switch i % 8 {
+		case 0: // a body of more than 1 MiB between two small entries
+			c.format = []string{"uripost", "raw", "jsonline"}[(i/8)%3]
+			c.ents = []entry{small(0), mk(c.format, "/big", bigBody(r), []hdrLine{{"X-A", "file"}}), small(2)}
+			c.conf = []string{"[X-A: conf]", "[X-B: conf]"}
+		case 1: // a long URI
+			c.format = []string{"uri", "uripost", "raw", "jsonline", "jsonarr"}[(i/8)%5]
+			c.ents = []entry{mk(c.format, longU, "body", nil), small(1)}
+			if c.format == "jsonarr" {
+				c.ents = append(c.ents, small(2))
+			}
+		case 2: // a long header value in the file and one in the option
+			c.format = []string{"uri", "uripost", "raw", "jsonline"}[(i/8)%4]
+			c.ents = []entry{mk(c.format, "/lv", "body", []hdrLine{{"X-Long", longV}, {"X-A", "file"}}), small(1)}
+			c.conf = []string{"[X-Conf-Long: " + longV + "]", "[X-Long: conf]"}
+		case 3: // dozens of header lines, some of them colliding with the option
+			c.format = []string{"raw", "uri", "jsonline", "uripost"}[(i/8)%4]
+			var hs []hdrLine
+			for j := 0; j < 24+r.Intn(30); j++ {
+				hs = append(hs, hdrLine{"X-H" + strconv.Itoa(j), "file" + strconv.Itoa(j)})
+			}
+			c.ents = []entry{mk(c.format, "/many", "body", hs), small(1)}
+			c.conf = []string{"[X-H3: conf]", "[x-h40: conf]", "[X-Other: conf]"}
+		case 4: // a dozen entries over three passes, limited
+			c.format = []string{"uri", "uripost", "raw", "jsonline", "jsonarr"}[(i/8)%5]
+			c.passes = 3
+			for j := 0; j < 9+r.Intn(6); j++ {
+				e := small(j)
+				if j%4 == 1 {
+					e.hdrs = []hdrLine{{"X-J", "file" + strconv.Itoa(j)}}
+				}
+				c.ents = append(c.ents, e)
+			}
+			if r.Intn(2) == 0 {
+				c.lim = 5 + r.Intn(30)
+			}
+			c.conf = []string{"[X-J: conf]"}
+		case 5: // a body of exactly the chunk size, one byte less, one byte more
+			c.format = []string{"uripost", "raw"}[(i/8)%2]
+			n := 1<<20 + []int{0, -1, 1}[r.Intn(3)]
+			c.ents = []entry{mk(c.format, "/edge", strings.Repeat("E", n-7)+"-edge-!", nil), small(1)}
+		case 6: // bodies around the 4096-byte buffer of bufio.Reader, with line ends inside
+			c.format = []string{"uripost", "raw", "jsonline"}[(i/8)%3]
+			n := 4096 + []int{-1, 0, 1, 4096}[r.Intn(4)]
+			c.ents = []entry{mk(c.format, "/buf", strings.Repeat("z", n-4)+"\n\r\n!", nil), small(1), small(2)}
+		case 7: // the inline `uris` list with header lines, two passes
+			c.format, c.uris, c.passes = "uri", true, 2
+			c.ents = []entry{mk("uri", "/u0", "", []hdrLine{{"X-A", "file"}, {"Host", "file.example.org"}}), mk("uri", longU, "", nil),
+				mk("uri", "/u2", "", []hdrLine{{"X-B", "late"}})}
+			c.conf = []string{"[X-A: conf]", "[X-B: conf]"}
+		}
+		out = append(out, encodeCase(c))
+	}
+	return out
+}
+
+// r3Cases (round 3): shared clients, followed redirects, a limit, a target that comes up after the gun factory ran; templates cycled.
+func r3Cases(r *rand.Rand, n int) []string {
+	var out []string
+	for i := 0; i < n; i++ {
+		c := caseIn{ka: true, inst: 2 + r.Intn(3), tgt: "127.0.0.1", passes: 1 + r.Intn(2), mode: "seq", rsp: []string{"2", "700", "5000"}[r.Intn(3)], gun: "http"}
+		c.format = []string{"uri", "uripost", "jsonline", "jsonarr", "raw"}[r.Intn(5)]
+		c.ssl = r.Intn(3) == 0
+		switch i % 6 {
+		case 0: // shared clients, fewer than instances
+			c.shared = 1 + r.Intn(2)
+			c.gun = []string{"http", "connect", "http2"}[r.Intn(3)]
+		case 1: // shared clients, as many as or more than instances; keep-alive off now and then
+			c.shared = c.inst + r.Intn(2)
+			c.ka = r.Intn(3) != 0
+		case 2: // redirects followed at the operator's demand: the decoy is reached, the target sees every request as it is
+			c.redir, c.rsp = true, "redir"
+		case 3: // redirect: true against a target that does not redirect
+			c.redir = true
+			c.gun = []string{"http", "connect", "http2"}[r.Intn(3)]
+		case 4: // a named target that comes up after the factory ran: nothing pre-resolved, the DNS-caching dialer is used
+			c.late, c.tgt = true, "localhost"
+			c.gun = []string{"http", "connect", "http2"}[r.Intn(3)]
+		case 5: // the same with a limit and preload
+			c.late, c.lim, c.preload = true, 1+r.Intn(5), r.Intn(2) == 0
+			c.tgt = []string{"localhost", "127.0.0.1"}[r.Intn(2)]
+		}
+		if c.gun == "http2" {
+			c.ssl = true
+		}
+		c.srv = map[bool]string{true: "tls", false: "plain"}[c.ssl]
+		if r.Intn(3) == 0 {
+			for j := 0; j < 2+r.Intn(4); j++ {
+				c.sched = append(c.sched, r.Intn(c.inst))
+			}
+		}
+		nE := 2 + r.Intn(3)
+		for j := 0; j < nE; j++ {
+			e := entry{method: "GET", uri: "/r3/" + strconv.Itoa(i) + "/" + strconv.Itoa(j), minor: 1}
+			switch c.format {
+			case "uri":
+			case "uripost":
+				e.method, e.body = "POST", "b"+strconv.Itoa(j)
+			default:
+				e.method = []string{"GET", "POST", "PUT", "HEAD", "DELETE"}[r.Intn(5)]
+				if e.method == "POST" || e.method == "PUT" {
+					e.body = "body" + strconv.Itoa(j)
+				}
+			}
+			if j == 1 {
+				e.hdrs = []hdrLine{{"X-A", "file"}}
+			}
+			c.ents = append(c.ents, e)
+		}
+		c.conf = []string{"[X-A: conf]"}
+		out = append(out, encodeCase(c))
+	}
+	return out
+}
+
 // every k-th element, starting at off
 func sample(l []string, k, off int) []string {
 	var out []string
@@ -1752,6 +2109,12 @@ func c09Gen(r *rand.Rand, tier string) []string {
 		nTimed = 240
 	}
 	out := timedCases(r, nTimed)
+	nSize, nR3 := 16, 24
+	if tier == "thorough" {
+		nSize, nR3 = 160, 600
+	}
+	out = append(out, sizeCases(r, nSize)...)
+	out = append(out, r3Cases(r, nR3)...)
 	out = append(out, matrix()...)
 	n, nMal, nCanon := 2200, 300, 500
 	if tier == "thorough" {
@@ -1831,6 +2194,35 @@ func c09Class(in, obs string) string {
 	}
 	if c.nodns {
 		cl += "/no-dns-cache"
+	}
+	if c.shared != 0 {
+		cl += "/shared-client"
+	}
+	if c.redir {
+		cl += "/redirect-on"
+	}
+	if c.uris {
+		cl += "/inline-uris"
+	}
+	if c.lim != 0 {
+		cl += "/limit"
+	}
+	if c.late {
+		cl += "/late-target"
+	}
+	big := false
+	for _, e := range c.ents {
+		if len(e.body) > 1<<20 || len(e.uri) > 4096 || len(e.hdrs) > 16 {
+			big = true
+		}
+		for _, h := range e.hdrs {
+			if len(h.v) > 4096 {
+				big = true
+			}
+		}
+	}
+	if big {
+		cl += "/big"
 	}
 	return cl
 }
